@@ -280,7 +280,7 @@ func realView(b *built, w *world, features []string, orig *Spec) ([]string, erro
 		if t.Kind != "object" && t.Kind != "interface" {
 			continue
 		}
-		nt := b.named[t.Name]
+		nt := b.schema.NamedTypes()[t.Name]
 		if nt == nil {
 			continue // erased schema: the type does not exist
 		}
